@@ -93,6 +93,13 @@ def run(tier):
             sess.close()
             runs.append((first, rec.n, dict(s=list((".".join(str(x) for x in base) + ".%d.." % start).encode()), op="getbulk-rows", cls=0)))
             chk.case(("rows", start, depth2))
+    # valid names handed to the PUBLIC API in every container a caller may use (list, tuple, generator, iterator, map, dict view,
+    # reversed): "every syntactically valid name is transmitted" holds at the API, not only at the socket
+    import asyncio
+    from checks import c03
+    for a, b, info in asyncio.run(c03.api_iterables(rec)):
+        runs.append((a, b, dict(s=list(("get_many(%s) via %s %s" % (info["form"], info["client"], info["cfg"])).encode()), op="api-iterable", cls=0)))
+        chk.case(("api-iterable", info["cfg"], info["client"], info["form"]))
     rec.close()
     print("  %d cases, %d events" % (len(runs), rec.n), flush=True)
     v = trace.validate_parallel("TraceSession.tla", "TraceSession.cfg", rec.events, [(a, b) for a, b, _ in runs], k=12, name="c08")
@@ -121,6 +128,16 @@ def replay(path):
     d = json.load(open(path))
     info = d["replay"]["info"]
     rec = trace.Recorder("c08-replay")
+    if info["op"] == "api-iterable":
+        import asyncio
+        from checks import c03
+        asyncio.run(c03.api_iterables(rec))
+        v = trace.validate("TraceSession.tla", "TraceSession.cfg", rec.close())
+        if v["accepted"] and not v["fails"]:
+            print("replay: accepted")
+            return 0
+        print("VIOLATION property=C08 replay=%s" % path)
+        return 1
     a, b = case(rec, scripts.std_cfgs()["v2c"], ag.Agent(), info["s"], info["op"])
     v = trace.validate("TraceSession.tla", "TraceSession.cfg", rec.close())
     if v["accepted"] and not v["fails"]:
